@@ -25,6 +25,7 @@ RULE = (
     "requests are followed by a variant with one failing position judged by C02's oracle under this plan. Distinct = SHA-1 of the canonical case spec; non-trivial = the "
     "executed operation exercised at least one of: a type condition differing from the runtime type, a "
     "response key collected from >=2 field nodes, @skip/@include driven by a variable, an abstract-typed value."
+    " 15% of the plans pass an empty (falsy) mapping as the caller's context; half of them modify delivered argument dictionaries in place after each request."
 )
 ASSUMPTIONS = [
     "query documents are parsed by the stand-in libgraphqlparser (tfv/gqlparse.py) - DESIGN 1.1",
@@ -58,6 +59,8 @@ def gen_plan(c, schema):
         kw["coerce_list_concurrently"] = c.maybe(50)
     plan["engine_kwargs"] = kw
     plan["inherit_parent_concurrency"] = c.maybe(50)
+    plan["falsy_context"] = c.maybe(15)
+    plan["scramble_args"] = c.maybe(50)  # delivered argument dictionaries are modified in place after each request
     if c.maybe(25):
         plan["sdl_split"] = gen_split(c, schema)  # some type definitions arrive as definition + `extend` block
     plan["concurrency"] = {}
@@ -139,6 +142,7 @@ def check(spec, chooser=None, h=None):
     if h is None:
         h = run_async(make_harness(spec["schema"], spec["plan"]))
     printed, resp = run_async(run_request(h, spec, tree, root))
+    h.scramble_live()
     ctx = "\nquery:\n%s\nvariables: %r op: %r" % (printed.text, spec["variables"], spec["op"])
     if "errors" in resp:
         raise Violation(spec, "unexpected errors for a valid request: %r%s" % (resp["errors"][:3], ctx), tag="errors")
